@@ -148,14 +148,26 @@ SPEC = {
     "C19": {
         "level": "exploration",
         "rule": "the five upstream operation x range matrices (edit-edit 9x10x10, split-split 5x8x8, split-edit 9x2x8, style-style 4x6x6, "
-                "edit-style 7x6x2 = 1592 pairs) re-expressed as data and enumerated x both sync orders x {without, with a third passive client "
-                "that attaches late in a snapshot-threshold project and is fed by a snapshot} = 6368 named cases, each on fresh documents "
-                "through the real server; oracle: no failing step, all replicas' Marshal() equal, and on each replica the user copy's tree XML "
-                "equals the real document's. both tiers run all 6368 cases (exhaustive:true within the matrices). non-trivial = both operations changed the tree on their editor (a merge whose computed range is empty is "
-                "trivial); distinct = distinct case index",
-        "assumptions": ["in-memory database backend", "matrix rows are upstream's (test/complex/tree_concurrency_test.go)"],
+                "edit-style 7x6x2 = 1592 pairs) re-expressed as data and enumerated x clock arrangement / role assignment {upstream: client 1 "
+                "(first activated, creates the tree) makes op 1 and client 2 op 2; swapped: client 2 makes op 1 and client 1 op 2; skew-op1 / "
+                "skew-op2: upstream roles, the maker of op 1 / op 2 first makes 3 unseen local changes on another root key so that its operation "
+                "carries the later lamport; thorough tier also tie / tie-swapped: the client whose clock is behind levels it, equal lamports, the "
+                "actor id decides} x both push orders x {no third client, a third passive client attaching after both pushes, one attaching "
+                "between the two pushes and receiving the second edit as a change; snapshot-threshold project, the third client is fed by a "
+                "snapshot, the editors pull plain changes} = 38208 named cases in the quick tier (4 arrangements), 57312 in the thorough tier "
+                "(6 arrangements), each on fresh documents and fresh clients through the real server; every tier runs every case of its space "
+                "(exhaustive:true), shards take residue classes of the pair index. oracle: no failing step, all replicas' Marshal() equal, and "
+                "on each replica the user copy's tree XML equals the real document's. Measured per case and counted: which operation carries the "
+                "later ticket (lamport, then actor id), whether actor ids sort in activation order, whether the third client's attach was answered "
+                "with a snapshot (exhaustive only if in all third-client cases) and whether an editor was. The 54 (quick: 36) named cases of the "
+                "known finding on merge-vs-deletion-of-the-merge-source with the merge carrying the later ticket are not run and counted as "
+                "excluded. non-trivial = both operations changed the tree on their editor (a merge whose computed range is empty is trivial); "
+                "distinct = distinct case index",
+        "assumptions": ["in-memory database backend", "matrix rows are upstream's (test/complex/tree_concurrency_test.go)",
+                        "actor ids are server-assigned; the arrangement labels assume they sort in activation order, which is verified in every case "
+                        "(the count of cases where it does not hold is in the evidence) and the later-ticket classes are measured, not assumed"],
         "parts": [
-            {"name": "matrix", "test": "TestC19", "kind": "enum", "checks": [0, 0], "shards": [8, 14], "timeout": [900, 3600]},
+            {"name": "matrix", "test": "TestC19", "kind": "enum", "checks": [0, 0], "shards": [16, 16], "timeout": [900, 3600]},
         ],
     },
     "C11": {
